@@ -690,6 +690,7 @@ type Case17 struct {
 	Aim   string       `json:"aim,omitempty"`   // infer: at run time one type parameter is renamed to the very name ("t<id>" / "s<id>") the checker is about to generate for one of its own fresh variables (a legal name: fresh means fresh for the terms at hand)
 	AimJ  int          `json:"aim_j,omitempty"`
 	Decoy int          `json:"decoy,omitempty"` // infer: a never-matching overload sharing f's type variables is registered before (1) / after (2) f
+	Chain bool         `json:"chain,omitempty"` // unify: alias-chain family
 	Cross bool         `json:"cross,omitempty"` // equals: crossing DAG family
 	BotG  bool         `json:"bot_g,omitempty"` // match: the variable-free side contains the bottom type somewhere (pattern on the left, no function types: see DESIGN.md, X01)
 	GC    string       `json:"gc"`             // none | dense | sparse
@@ -779,7 +780,65 @@ func genCase17(r *rng) *Case17 {
 	case 3, 4, 5, 6:
 		c.Mode = "unify"
 		c.X = g.top(d, true, r.chance(0.2))
-		switch r.intn(9) {
+		switch r.intn(10) {
+		case 9:
+			// alias chains: three variables are aliased to each other position by position
+			// (a ~ b, b ~ c) and two of them then meet ground types that are equal or differ
+			// in one place; whatever Unify answers, a success must equalise both sides
+			vs := []string{"a1", "a11", "ab1"}
+			for i := 2; i > 0; i-- {
+				j := r.intn(i + 1)
+				vs[i], vs[j] = vs[j], vs[i]
+			}
+			V := func(i int) *T17 { return &T17{K: "var", N: vs[i]} }
+			saved := g.vars
+			g.vars = nil
+			t1 := g.ty(r.intn(3), false, false)
+			g.vars = saved
+			t2 := t1.clone()
+			if r.chance(0.6) {
+				t2 = g.mutate17(t1)
+			}
+			type pr struct{ l, r *T17 }
+			ps := []pr{{V(0), V(1)}, {V(1), V(2)}}
+			gi, gj := r.intn(3), r.intn(3)
+			gs := []pr{{V(gi), t1}, {V(gj), t2}}
+			if r.chance(0.3) {
+				w := r.pick([]string{"list", "maybe"})
+				gs[1] = pr{&T17{K: w, A: []*T17{V(gj)}}, &T17{K: w, A: []*T17{t2}}}
+			}
+			if r.chance(0.3) {
+				ps = append(ps, pr{V(2), V(0)})
+			}
+			if r.chance(0.5) {
+				ps[0], ps[1] = ps[1], ps[0]
+			}
+			ps = append(ps, gs...)
+			if r.chance(0.3) {
+				for i := len(ps) - 1; i > 0; i-- {
+					j := r.intn(i + 1)
+					ps[i], ps[j] = ps[j], ps[i]
+				}
+			}
+			var l, rr []*T17
+			for _, p := range ps {
+				if r.chance(0.5) {
+					p.l, p.r = p.r, p.l
+				}
+				l, rr = append(l, p.l), append(rr, p.r)
+			}
+			switch r.intn(3) {
+			case 0:
+				c.X, c.Y = &T17{K: "tuple", A: l}, &T17{K: "tuple", A: rr}
+			case 1:
+				names := []string{"p", "q", "r", "s", "t"}[:len(l)]
+				c.X = &T17{K: "obj", F: append([]string(nil), names...), A: l}
+				c.Y = permuteFields(&T17{K: "obj", F: append([]string(nil), names...), A: rr}, r)
+			default:
+				// function: the last position is the result
+				c.X, c.Y = &T17{K: "fun", N: "f", A: l}, &T17{K: "fun", N: "f", A: rr}
+			}
+			c.Chain = true
 		case 8:
 			// occurs twins: one variable twice on one side; on the other side a container around
 			// a second variable and that bare variable (in either order), optionally through an
@@ -1583,6 +1642,9 @@ func (c17) Batch(seed uint64, wid, batch, count int, deadline time.Time, emit fu
 		cn["steps"] += int64(res.Steps)
 		if c.Cross {
 			cn["equals_crossing_dag_cases"]++
+		}
+		if c.Chain {
+			cn["unify_alias_chain_cases"]++
 		}
 		if c.Decoy != 0 {
 			cn["infer_decoy_overload_cases"]++
